@@ -2,6 +2,7 @@
    input lines:
      SSET k n (opcode arity param)*            store symbol set k and select it (no output)
      USE k                                     select symbol set k (no output)
+     ELW 32|64                                 width of the elapsed-time reader of summary::load (no output)
      SAVE <type> <dump>                        -> <hex of the model's save>
      LOAD <type> <streamhex|-> <dump|FRESH>    -> <0|1> <dump of the target afterwards>
      PINNED <n0> <streamhex>                   -> OK|FAIL|OOB  (pinned population<i_ga>::load, checked form)
@@ -121,6 +122,10 @@ let p_mat () = let c = nhex () in let n = nint () in { mx_cols = c; mx_data = ti
 let s_mat m = zhex m.mx_cols ^ " " ^ s_list zdec m.mx_data
 
 let sset : symset ref = ref []
+(* width of the integer summary::load reads the elapsed time into (ELW 32|64; read off the source by the check) *)
+(* does distribution::save refuse non-finite statistics (DSR 0|1; read off the source by the check) *)
+let dist_refuses = ref false
+let elapsed_reader : (z list -> (z * z list) option) ref = ref read_i32
 let slots : (int, symset) Hashtbl.t = Hashtbl.create 4
 
 (* a persistable type: parser of dumps, printer, save, load, default *)
@@ -136,13 +141,13 @@ let ty_team i = { pd = p_team i.pd; sd = s_team i.sd; sv = team_save i.sv;
 let ty_pop i = { pd = p_pop i.pd; sd = s_pop i.sd; sv = pop_save i.sv;
                  ld = (fun s t -> pop_load i.ld (i.df ()) s t); df = (fun () -> []); em = (fun _ -> false) }
 let ty_sum i = { pd = p_sum i.pd; sd = s_sum i.sd; sv = summary_save show17 i.sv i.em;
-                 ld = (fun s t -> summary_load read_f i.ld (i.df ()) s t); em = (fun _ -> false);
+                 ld = (fun s t -> summary_load read_f i.ld (i.df ()) !elapsed_reader s t); em = (fun _ -> false);
                  df = (fun () -> { su_sol = i.df (); su_fit = []; su_acc = minus_one;
                                    su_elapsed = Z0; su_mutations = Z0; su_crossovers = Z0;
                                    su_gen = Z0; su_last_imp = Z0 }) }
 let ty_hash = { pd = p_hash; sd = s_hash; sv = hash_save; ld = hash_load; df = (fun () -> (Z0, Z0)); em = (fun _ -> false) }
 let ty_fit = { pd = p_fit; sd = s_fit; sv = fit_save show17; ld = fit_load read_f; df = (fun () -> []); em = (fun _ -> false) }
-let ty_dist = { pd = p_dist; sd = s_dist; sv = dist_save show17; ld = dist_load read_f; em = (fun _ -> false);
+let ty_dist = { pd = p_dist; sd = s_dist; sv = (fun d -> if dist_save_ok d || not !dist_refuses then dist_save show17 d else stream_of_string "REFUSED"); ld = dist_load read_f; em = (fun _ -> false);
                 df = (fun () -> { d_count = Z0; d_mean = Z0; d_min = Z0; d_max = Z0; d_m2 = Z0; d_seen = [] }) }
 let ty_mat = { pd = p_mat; sd = s_mat; sv = matrix_save; ld = matrix_load; em = (fun _ -> false);
                df = (fun () -> { mx_cols = Z0; mx_data = [] }) }
@@ -170,7 +175,7 @@ let dispatch cmd tyname =
   | "POPDE" -> run_ty (ty_pop ty_de) cmd
   | "POPTEAM" -> run_ty (ty_pop (ty_team ty_mep)) cmd
   | "SUMMEP" -> run_ty (ty_sum ty_mep) cmd
-  | "SUMGA" -> run_ty (ty_sum ty_ga) cmd
+  | "SUMGA" | "SUMGAX" -> run_ty (ty_sum ty_ga) cmd
   | "SUMDE" -> run_ty (ty_sum ty_de) cmd
   | "DIST" | "DISTX" -> run_ty ty_dist cmd
   | "MAT" -> run_ty ty_mat cmd
@@ -190,6 +195,8 @@ let () =
                                         { sy_opcode = op; sy_arity = nat_of_int ar; sy_param = (pa <> 0) }) in
             Hashtbl.replace slots k ss; sset := ss
         | "USE" -> sset := Hashtbl.find slots (nint ())
+        | "DSR" -> dist_refuses := (nint () <> 0)
+        | "ELW" -> elapsed_reader := (if nint () = 64 then read_i64 else read_i32)
         | "PINNED" ->
             let n0 = nint () in
             let s = stream_of_hex (next ()) in
